@@ -30,6 +30,43 @@ CHECKS["C16"] = dict(
     design="DESIGN.md §4 C16",
 )
 
+OTHER_NOTE = ("Trusted: rustc's type checker, trait resolution and const evaluator; the summary table rules/summaries.py (meaning of arkworks / core / "
+              "subtle / r1cs-std callees); lower layers as stated in the text (each layer's own check discharges them).")
+
+CHECKS["C01"] = dict(
+    technique="static: abstract interpretation of type-checked HIR into algebraic terms + canonical polynomial normal form compared with the specification's decode/encode terms (TERM), byte funnel, sign convention",
+    category="other",
+    text="Decides that the code of each build IS the specification's decode and encode maps for all inputs, representatives and projective scalings at once "
+         "(function comparison by normal form, not sampling); plus that vartime_compress is the canonical LE bytes of that value and that the sign convention "
+         "reads the lsb of the canonical value. The round-trip identity itself is the Decaf theorem applied to these maps and is assumed, not re-proved.",
+    note=OTHER_NOTE + " Assumes ISQRT's four-case contract (C09) and exact field arithmetic (C10).", design="DESIGN.md §4 C01")
+CHECKS["C02"] = dict(
+    technique="static: return-flow / guard-set extraction by abstract interpretation (GUARD-SET), glue-level canonical-parse shape with const-evaluated modulus (CANON-PARSE), must-pass-through funnel over compiler-enumerated entry points (FUNNEL), panic-site table (PANIC)",
+    category="other",
+    text="The set of rejecting conditions of decode equals the specification's four (canonical boolean/polynomial forms), success is gated by exactly their negations, "
+         "the canonical check is `LE-limbs(bytes) >= q` with the constant evaluated to q (or reduce-and-compare in the minimal build), every one of the 16 decoding entry "
+         "points reduces to decode(unmodified input) with only length/read/mode guards, and reachable non-debug panic sites are tabled with reasons.",
+    note=OTHER_NOTE + " 'ISQRT answers square? correctly' is C09; primitive reduction/serialisation is C10/C11.", design="DESIGN.md §4 C02")
+CHECKS["C03"] = dict(
+    technique="static: TERM conformance of the encoder on projective coordinates, homogeneity weights of the extracted polynomial under projective scaling (HOMOG), observation funnel over all encoding entry points",
+    category="other",
+    text="The encoder equals the specification's map on projective (X:Y:Z:T) as a polynomial function; independently of the spec its output has weight 0 under scaling and every "
+         "sign test looks at a weight-0 quantity; all 13 encoding entry points (conversions, serialisers, Debug/Display, ToConstraintField) observe self only through bytes(encode(self)).",
+    note=OTHER_NOTE + " Constancy on cosets and injectivity of the specified encoder are the Decaf theorem (assumed).", design="DESIGN.md §4 C03")
+CHECKS["C04"] = dict(
+    technique="static: forwarding rule over every compiler-listed operator impl (FWD: result denotes G_ADD/G_NEG on the impl's own operands), polynomial ideal-membership by normal-form reduction for the hand-written formulas incl. a completeness factorisation of Z3 (IDEAL), identity/generator constants",
+    category="other",
+    text="All 59 Add/Sub/Neg/AddAssign/SubAssign/Sum impls plus negate/double_in_place are interpreted down to the arkworks point operations and must denote the right abstract group "
+         "operation on their own operands; the minimal backend's add/double/neg formulas are proved to satisfy the a=-1 twisted Edwards law as polynomial identities modulo T*Z=X*Y and the "
+         "curve equation, with Z3 a product of never-vanishing factors (completeness).",
+    note=OTHER_NOTE + " Trusted: arkworks' twisted_edwards Projective/Affine operators are the complete group law.", design="DESIGN.md §4 C04")
+CHECKS["C05"] = dict(
+    technique="static: forwarding rule over every Mul/MulAssign impl and mul_bigint / multiscalar stub (FWD), loop-summary template match of the double-and-add ladder for both const-generic variants (LADDER), group-order facts on const-evaluated constants",
+    category="other",
+    text="Every scalar-multiplication form denotes G_SMUL(point operand, scalar operand); mul_bigint forwards the whole integer; the multiscalar stub folds s*P from the identity; the minimal "
+         "backend's ladder is the LSB-first double-and-add over all limbs x 64 bits with no early exit (premises of the textbook induction); cofactor 1, r prime, generator of exact order r.",
+    note=OTHER_NOTE + " Module laws follow from G_SMUL being the k-fold sum (assumed); arkworks mul_bigint trusted.", design="DESIGN.md §4 C05")
+
 NOT_APPLICABLE = {}
 
 PENDING = {}  # property -> reason, for properties whose check is not built yet
